@@ -6,7 +6,7 @@ import ast
 from sa.engine.callgraph import calls_in, reachable_functions, resolve_call
 from sa.engine.cfg import CFG, default_may_raise, normally_dominates
 from sa.engine.context import Ctx
-from sa.engine.loader import AnalysisError, FuncInfo, dotted, norm, short, walk_own
+from sa.engine.loader import AnalysisError, FuncInfo, dotted, norm, short, walk_own, is_noise
 from sa.engine.loops import LoopAnalysis
 from sa.engine.report import Finding, RuleReport
 from sa.engine.resolver import Resolver
@@ -585,7 +585,7 @@ def _reader_ok_factory(ctx: Ctx, fi: FuncInfo):
             return False
         res = False
         # first effective statement unconditionally calls a consuming reader with a positive constant size
-        for st in [s for s in g.node.body if not (isinstance(s, ast.Expr) and isinstance(s.value, ast.Constant))][:2]:
+        for st in [s for s in g.node.body if not is_noise(s)][:2]:
             if isinstance(st, (ast.If, ast.For, ast.While, ast.Try, ast.With)):
                 break
             for c in [n for n in ast.walk(st) if isinstance(n, ast.Call)]:
